@@ -321,7 +321,17 @@ fn all_ranges(t: &Term, out: &mut Vec<(usize, usize)>) {
 
 // Evident types by node id (the printer's pre-order numbering), and the right-hand sides of
 // definitions by name.
-fn evident_types(h: &H) -> (Vec<Option<&'static str>>, Vec<(String, usize)>) {
+const R_ARG: u8 = 1;
+const R_FUN: u8 = 2;
+const R_TYPE: u8 = 4;
+const R_OPERAND: u8 = 8;
+const R_DEF: u8 = 16;
+const R_IF: u8 = 32;
+
+// also: the syntactic role of every node (argument or function of an application, type position,
+// operand of an operator or condition of a conditional, right-hand side of a definition, a
+// conditional itself); parentheses pass their role on to what they enclose
+fn evident_types(h: &H) -> (Vec<Option<&'static str>>, Vec<(String, usize)>, Vec<u8>) {
     fn ground(h: &H) -> Option<&'static str> {
         match h.strip() {
             H::Int => Some("int"),
@@ -330,9 +340,10 @@ fn evident_types(h: &H) -> (Vec<Option<&'static str>>, Vec<(String, usize)>) {
             _ => None,
         }
     }
-    fn go(h: &H, env: &mut Vec<(String, Option<&'static str>)>, out: &mut Vec<Option<&'static str>>, defs: &mut Vec<(String, usize)>, in_chain: bool) {
+    fn go(h: &H, env: &mut Vec<(String, Option<&'static str>)>, out: &mut Vec<Option<&'static str>>, defs: &mut Vec<(String, usize)>, in_chain: bool, roles: &mut Vec<u8>, role: u8) {
         let id = out.len();
         out.push(None);
+        roles.push(role | if matches!(h, H::If(..)) { R_IF } else { 0 });
         let ev: Option<&'static str> = match h {
             H::Lit(_) | H::Neg(_) => Some("int"),
             H::Bin(op, ..) => Some(if op.is_arith() { "int" } else { "bool" }),
@@ -345,27 +356,31 @@ fn evident_types(h: &H) -> (Vec<Option<&'static str>>, Vec<(String, usize)>) {
         };
         match h {
             H::Paren(x) => {
-                go(x, env, out, defs, false);
+                go(x, env, out, defs, false, roles, role);
                 out[id] = out[id + 1];
                 return;
             }
             H::Lam(n, _, d, b) => {
                 if let Some(d) = d {
-                    go(d, env, out, defs, false);
+                    go(d, env, out, defs, false, roles, R_TYPE);
                 }
                 env.push((n.clone(), d.as_ref().and_then(|d| ground(d))));
-                go(b, env, out, defs, false);
+                go(b, env, out, defs, false, roles, 0);
                 env.pop();
             }
             H::Pi(n, _, d, b) => {
-                go(d, env, out, defs, false);
+                go(d, env, out, defs, false, roles, R_TYPE);
                 env.push((n.clone(), ground(d)));
-                go(b, env, out, defs, false);
+                go(b, env, out, defs, false, roles, R_TYPE);
                 env.pop();
             }
-            H::App(a, b) | H::Bin(_, a, b) => {
-                go(a, env, out, defs, false);
-                go(b, env, out, defs, false);
+            H::App(a, b) => {
+                go(a, env, out, defs, false, roles, R_FUN);
+                go(b, env, out, defs, false, roles, R_ARG);
+            }
+            H::Bin(_, a, b) => {
+                go(a, env, out, defs, false, roles, R_OPERAND);
+                go(b, env, out, defs, false, roles, R_OPERAND);
             }
             H::Let(n, a, d, b) => {
                 // the whole chain is in scope everywhere in the group
@@ -379,26 +394,26 @@ fn evident_types(h: &H) -> (Vec<Option<&'static str>>, Vec<(String, usize)>) {
                     }
                 }
                 if let Some(a) = a {
-                    go(a, env, out, defs, false);
+                    go(a, env, out, defs, false, roles, R_TYPE);
                 }
                 defs.push((n.clone(), out.len()));
-                go(d, env, out, defs, false);
-                go(b, env, out, defs, matches!(**b, H::Let(..)));
+                go(d, env, out, defs, false, roles, R_DEF);
+                go(b, env, out, defs, matches!(**b, H::Let(..)), roles, 0);
                 env.truncate(env.len() - pushed);
             }
-            H::Neg(a) => go(a, env, out, defs, false),
+            H::Neg(a) => go(a, env, out, defs, false, roles, R_OPERAND),
             H::If(a, b, c) => {
-                go(a, env, out, defs, false);
-                go(b, env, out, defs, false);
-                go(c, env, out, defs, false);
+                go(a, env, out, defs, false, roles, R_OPERAND);
+                go(b, env, out, defs, false, roles, 0);
+                go(c, env, out, defs, false, roles, 0);
             }
             _ => {}
         }
         out[id] = ev;
     }
-    let (mut out, mut defs) = (vec![], vec![]);
-    go(h, &mut vec![], &mut out, &mut defs, false);
-    (out, defs)
+    let (mut out, mut defs, mut roles) = (vec![], vec![], vec![]);
+    go(h, &mut vec![], &mut out, &mut defs, false, &mut roles, 0);
+    (out, defs, roles)
 }
 
 fn check_type_fault(ctx: &mut Ctx, r: &mut Rng, idx: u64) {
@@ -430,7 +445,7 @@ fn check_type_fault(ctx: &mut Ctx, r: &mut Rng, idx: u64) {
         ctx.count("planted-fault:no-diagnostic");
         return;
     }
-    let (evident, defs) = evident_types(&m);
+    let (evident, defs, roles) = evident_types(&m);
     if evident.len() != printed.spans.len() {
         ctx.count("planted-fault:numbering-differs(skipped)");
         return;
@@ -502,6 +517,37 @@ fn check_type_fault(ctx: &mut Ctx, r: &mut Rng, idx: u64) {
             return;
         }
         ctx.count("type-diagnostic:marks-a-subexpression");
+        // the role the message gives the marked text must be a role that text plays
+        let played: u8 = marked.iter().map(|id| roles.get(*id).copied().unwrap_or(0)).fold(0, |a, b| a | b);
+        let needed: u8 = if head.contains("the function was expecting an argument of type") {
+            R_ARG
+        } else if head.contains("when a function was expected") {
+            R_FUN
+        } else if head.contains("This is not a type") {
+            R_TYPE
+        } else if head.contains("but it should have type") {
+            R_OPERAND
+        } else if head.contains("but it was expected to have type") {
+            R_DEF
+        } else if head.contains("The two branches of this conditional") {
+            R_IF
+        } else {
+            0
+        };
+        if needed != 0 && played & needed == 0 {
+            viol(ctx, "type-diagnostic-marks-text-in-another-role", &format!("the diagnostic `{}` marks text that is not {}:\n{}", clip(head, 160), match needed {
+                R_ARG => "the argument of an application",
+                R_FUN => "the function of an application",
+                R_TYPE => "in a type position",
+                R_OPERAND => "an operand of an operator or the condition of a conditional",
+                R_DEF => "the right-hand side of a definition",
+                _ => "a conditional",
+            }, clip(msg, 700)), src);
+            return;
+        }
+        if needed != 0 {
+            ctx.count("type-diagnostic:role-agrees");
+        }
         // what the message says about the marked text
         let claimed = head.split("This has type `").nth(1).and_then(|x| x.split('`').next());
         let ev: Vec<&'static str> = marked.iter().filter_map(|id| evident[*id]).collect();
@@ -566,6 +612,93 @@ fn check_stray_symbol(ctx: &mut Ctx, base: &str, r: &mut Rng) {
                 ctx.nontrivial(hash_str(&msgs[0]));
             }
         }
+    }
+}
+
+// (2d) syntax diagnostics: a token deleted from or inserted into a well-formed program. Every
+// excerpt that follows a sentence quoting a token (`encountered \`X\``, `before \`X\``, "This
+// parenthesis was never closed") must mark exactly that token.
+fn marked_text_of_single_line_excerpt(ex: &str) -> Option<String> {
+    let lines: Vec<&str> = ex.lines().collect();
+    if lines.len() != 2 {
+        return None;
+    }
+    let (l1, l2) = (lines[0], lines[1]);
+    let bar = l1.find('\u{2502}')?;
+    let text_start_col = l1[..bar].chars().count() + 2;
+    let text: Vec<char> = l1.chars().collect();
+    let marks: Vec<char> = l2.chars().collect();
+    let mut out = String::new();
+    for (col, m) in marks.iter().enumerate() {
+        if *m == '\u{203e}' {
+            if col < text_start_col {
+                return None;
+            }
+            out.push(*text.get(col)?);
+        }
+    }
+    Some(out)
+}
+
+fn check_syntax_fault(ctx: &mut Ctx, r: &mut Rng, idx: u64) {
+    use crate::gen_prog::{Mode, gen_program};
+    let mode = if r.chance(1, 2) { Mode::Explicit } else { Mode::Inferred };
+    let p = gen_program(r, mode);
+    let base = print(&p.h, &Style::varied(r), idx).text;
+    let Ok(toks) = crate::rtok::rtok(&base) else { return };
+    if toks.len() < 3 {
+        return;
+    }
+    let t = &toks[r.usize(toks.len())];
+    let src = match r.below(3) {
+        0 => format!("{}{}", &base[..t.start], &base[t.end..]), // a token deleted
+        1 => format!("{} {} {}", &base[..t.start], ["else", "then", ")", "(", ";", "=>", "->", ":", "=", "if", "}", "{"][r.usize(12)], &base[t.start..]),
+        _ => format!("{} {} {}", &base[..t.end], [")", "(", "else", "1", "x", "+", "*"][r.usize(7)], &base[t.end..]),
+    };
+    ctx.eval();
+    let res = guard(|| {
+        let toks = match tokenize(None, &src) {
+            Ok(t) => t,
+            Err(_) => return vec![],
+        };
+        match parse(None, &src, &toks[..], &[]) {
+            Ok(_) => vec![],
+            Err(es) => es.iter().map(|x| x.message.clone()).collect::<Vec<_>>(),
+        }
+    });
+    let Ok(msgs) = res else { return };
+    for msg in &msgs {
+        // blocks: sentence, blank, excerpt, blank, sentence, blank, excerpt ...
+        let parts: Vec<&str> = msg.split("\n\n").collect();
+        let mut i = 0;
+        while i + 1 < parts.len() {
+            let (sentence, ex) = (parts[i], parts[i + 1]);
+            i += 2;
+            let quoted = if let Some(x) = sentence.rsplit("encountered `").next().filter(|_| sentence.contains("encountered `")) {
+                x.split('`').next()
+            } else if let Some(x) = sentence.rsplit("before `").next().filter(|_| sentence.contains("before `")) {
+                x.split('`').next()
+            } else if sentence.contains("This parenthesis was never closed") {
+                Some("(")
+            } else {
+                None
+            };
+            let Some(q) = quoted else { continue };
+            let Some(marked) = marked_text_of_single_line_excerpt(ex) else {
+                ctx.count("syntax-diagnostic:excerpt-not-single-line");
+                continue;
+            };
+            ctx.nontrivial(hash_str(msg));
+            if marked == q {
+                ctx.count("syntax-diagnostic:marks-the-quoted-token");
+            } else {
+                viol(ctx, "syntax-diagnostic-marks-another-token", &format!("the sentence `{}` is followed by an excerpt that marks `{marked}`:\n{}", clip(sentence, 200), clip(msg, 700)), &src);
+                return;
+            }
+        }
+    }
+    if msgs.is_empty() {
+        ctx.count("syntax-fault:still-a-sentence");
     }
 }
 
@@ -726,8 +859,9 @@ impl Prop for C15P {
                 sec("stray-symbols", tier.pick(8_000, 160_000)),
                 sec("node-slices", tier.pick(6_000, 120_000)),
                 sec("type-faults", tier.pick(24_000, 240_000)),
+                sec("syntax-faults", tier.pick(12_000, 240_000)),
             ],
-            "listing() on random texts (0-120 preceding lines, 1-4-byte characters, CRLF, trailing whitespace, comments) with random ranges on character boundaries; unbound names and re-bound binders injected into random programs printed with varied layout, and stray symbols inserted at token boundaries: the excerpt must be the specified listing of exactly the injected text; every node range of parsed programs re-parsed in the scope at that point; diagnostics of explicit programs with one planted fault: each type diagnostic marks a subexpression whose evident type (literals, operators, type formers, lambdas, variables with ground annotations) agrees with what the message says about it, each definition-order diagnostic shows the definition it names; non-trivial = distinct (text, range) / diagnostic / program",
+            "listing() on random texts (0-120 preceding lines, 1-4-byte characters, CRLF, trailing whitespace, comments) with random ranges on character boundaries; unbound names and re-bound binders injected into random programs printed with varied layout, and stray symbols inserted at token boundaries: the excerpt must be the specified listing of exactly the injected text; every node range of parsed programs re-parsed in the scope at that point; diagnostics of explicit programs with one planted fault: each type diagnostic marks a subexpression whose evident type (literals, operators, type formers, lambdas, variables with ground annotations) agrees with what the message says about it, each definition-order diagnostic shows the definition it names; programs with one token deleted or inserted: every excerpt that follows a sentence quoting a token marks exactly that token; non-trivial = distinct (text, range) / diagnostic / program",
         );
         p.assumptions = vec![
             "characters are Unicode scalar values; generated fault lines avoid double-width and zero-width code points".into(),
@@ -762,6 +896,10 @@ impl Prop for C15P {
                 if let Some((s, a, b)) = hand.get(idx as usize) {
                     check_listing(ctx, s, *a, *b);
                 }
+            }
+            "syntax-faults" => {
+                let mut r = Rng::for_case(ctx.seed, 6, idx);
+                check_syntax_fault(ctx, &mut r, idx);
             }
             "type-faults" => {
                 let mut r = Rng::for_case(ctx.seed, 5, idx);
